@@ -77,6 +77,7 @@ func cmdSweep(args []string) {
 	tier := fs.String("tier", "quick", "")
 	verbose := fs.Bool("v", false, "")
 	nosolve := fs.Bool("nosolve", false, "")
+	dumpall := fs.Bool("dumpall", false, "with -dump: write every query, not only the failed ones")
 	root := fs.String("repo", repoRoot, "")
 	fs.Parse(args)
 	t0 := time.Now()
@@ -110,6 +111,11 @@ func cmdSweep(args []string) {
 		}
 	}
 	fmt.Printf("generated %d queries (%d trivial) in %.1fs\n", len(x.queries), len(x.trivial), time.Since(t0).Seconds())
+	if *dumpall && *dump != "" {
+		for i, q := range x.queries {
+			dumpQuery(*dump, x, q, i)
+		}
+	}
 	if *nosolve {
 		x.queries = nil
 	}
